@@ -332,3 +332,14 @@ example : (decideTestGE ([0, 0, 0, 0].map Val.fin) (Val.fin 0) (1/20)).pass = tr
   rw [this]; norm_num
 
 end CE.Disc
+
+/-! ### the decision as a function of its comparison operators (translator tie) -/
+namespace CE.Disc
+
+/-- **decideTestG_codeShape.** With the operators the translator reads off the current source
+(obligation `ObC03`: `Generated.shuffleShape = codeShape`, re-checked on every run) the generic
+decision is the `decideTest` that every C03 / C04 theorem is about. -/
+theorem decideTestG_codeShape (null : List Val) (obs : Val) (α : Rat) :
+    decideTestG codeShape null obs α = decideTest null obs α := rfl
+
+end CE.Disc
